@@ -153,12 +153,80 @@ FUNCTOR_RE = _re.compile(r"^std::(plus|minus|multiplies)<.*>::operator\(\)$")
 
 
 class Evaluator:
-    def __init__(self, var_ids, env=None, const_env=None, ptr_zero=False):
+    def __init__(self, var_ids, env=None, const_env=None, ptr_zero=False, db=None):
         """var_ids: set of decl ids that denote the free variable; env: decl id -> init expression.
-        ptr_zero: pointer-typed leaves evaluate to 0 (offsets relative to an unknown base, arithmetic modulo 2^64)"""
+        ptr_zero: pointer-typed leaves evaluate to 0 (offsets relative to an unknown base, arithmetic modulo 2^64)
+        db: facts (optional) - calls to small value helpers with a body are evaluated through their return expression"""
         self.var_ids = set(var_ids)
         self.env = env if env is not None else {}
         self.ptr_zero = ptr_zero
+        self.db = db
+        self._depth = 0
+
+    @staticmethod
+    def _strip(e):
+        while isinstance(e, dict) and (e.get("k") == "paren" or (e.get("k") in ("icast", "cast") and e.get("ck") in ("NoOp", "LValueToRValue")) or
+                                       (e.get("k") in ("mtemp", "bindtemp", "exprwc") and "e" in e)):
+            e = e["e"]
+        return e
+
+    def pointee(self, e):
+        """the expression designated by `*p` when p is a local / parameter known to hold `&x` (helpers taking their operands by pointer)"""
+        p = self._strip(e)
+        for _ in range(4):
+            if isinstance(p, dict) and p.get("k") == "ref" and p.get("d") in self.env and p["d"] not in self.var_ids:
+                p = self._strip(self.env[p["d"]])
+            else:
+                break
+        if isinstance(p, dict) and p.get("k") == "un" and p.get("op") == "&":
+            return p["e"]
+        return None
+
+    def helper_result(self, e):
+        """the return expression of a call to a helper whose body is straight-line (declarations, compile-time-constant ifs, one
+        return), with its parameters bound to the argument expressions in env; None when the callee is not of that shape"""
+        if self.db is None or self._depth > 3:
+            return None
+        fn = e.get("fn") or {}
+        f = self.db.fn_by_id.get(fn.get("id"))
+        if f is None or "body" not in f or f.get("dep") or not (f.get("n") or "").startswith("rlbox::"):
+            return None
+        args = list(e.get("args") or [])
+        if e.get("opcall") and e.get("member"):
+            args = args[1:]
+        if len(args) != len(f["params"]):
+            return None
+        for p_, a in zip(f["params"], args):
+            if "d" in p_:
+                self.env[p_["d"]] = a
+
+        def find_ret(st):
+            k = st.get("s")
+            if k == "block":
+                for x in st["b"]:
+                    r = find_ret(x)
+                    if r is not None:
+                        return r
+                return None
+            if k == "decl":
+                for v in st["v"]:
+                    if "init" in v and not v.get("sa"):
+                        self.env[v["d"]] = v["init"]
+                return None
+            if k == "if":
+                c = self._strip(st["c"])
+                if isinstance(c, dict) and "cv" in c:
+                    br = st.get("then") if int(c["cv"]) else st.get("else")
+                    return find_ret(br) if br is not None else None
+                raise Inconclusive("run-time branch in value helper %s" % f["n"])
+            if k in ("ret", "return"):
+                return st.get("e")
+            if k in ("null", None):
+                return None
+            if k == "expr" and (st["e"].get("k") in ("cast", "icast") and st["e"].get("ck") == "ToVoid"):
+                return None
+            raise Inconclusive("statement %s in value helper %s" % (k, f["n"]))
+        return find_ret(f["body"])
 
     def ev(self, e, S):
         k = e["k"]
@@ -226,6 +294,20 @@ class Evaluator:
             return self.ev({"k": "bin", "op": op, "l": a[0], "r": a[1], "t": e.get("t"), "loc": e.get("loc")}, S)
         if k == "sizeof" and "cv" in e:
             return [(lo, hi, 0, int(e["cv"])) for lo, hi in S]
+        if k == "un" and e["op"] == "*":
+            tgt = self.pointee(e["e"])
+            if tgt is not None:
+                return self.ev(tgt, S)
+        if k in ("paren", "mtemp", "bindtemp", "exprwc") and "e" in e:
+            return self.ev(e["e"], S)
+        if k == "call":
+            r = self.helper_result(e)
+            if r is not None:
+                self._depth += 1
+                try:
+                    return self.ev(r, S)
+                finally:
+                    self._depth -= 1
         raise Inconclusive("expression kind %s%s" % (k, (" " + e.get("op", "")) if k in ("bin", "un") else ""))
 
     def _refine(self, L, R, S):
@@ -272,6 +354,10 @@ class Evaluator:
             return merge([(lo, hi) for lo, hi, a, b in P if a == 0 and b == 1])
         if k == "ref" and e["d"] in self.env:
             return self.sat(self.env[e["d"]], S)
+        if k == "un" and e["op"] == "*" and self.pointee(e["e"]) is not None:
+            return self.sat(self.pointee(e["e"]), S)
+        if k in ("paren", "mtemp", "bindtemp", "exprwc") and "e" in e:
+            return self.sat(e["e"], S)
         if k == "ref" and e["d"] in self.var_ids:
             P = tobool(self.ev(e, S))
             return merge([(lo, hi) for lo, hi, a, b in P if b == 1])
